@@ -119,7 +119,11 @@ func (w *World) registerDecimal() {
 			return TupleV{m.exactF(d.L), true}
 		}
 		// two roundings: 19-digit decimal, then nearest float
-		return TupleV{m.mkF(d.L, rhoMul(ulpHalf, new(big.Rat), true)), true}
+		fv := m.mkF(d.L, rhoMul(ulpHalf, new(big.Rat), true))
+		if fs, ok := fv.(*FSym); ok && fs.op == "" {
+			fs.op = "decf(" + d.L.Key() + ")" // a deterministic function of the decimal's value
+		}
+		return TupleV{fv, true}
 	}
 	x[mp+"Int64"] = func(m *Machine, fn *ssa.Function, a []Value) Value {
 		d := m.decOf(a[0])
